@@ -4,6 +4,7 @@ import Poulpy.Lemmas.Retriever
 import Poulpy.Lemmas.Cbt
 import Poulpy.Lemmas.CbtExp
 import Poulpy.Props.C20
+import Poulpy.Props.C14
 import Mathlib.Tactic.Positivity
 /-
 C15 — encrypted integers: bit layout and bit surgery (index algebra), over the plaintext-level model
@@ -590,6 +591,58 @@ theorem cbt_exponent_old_equal_gap_counterexample : ∃ T, Lut.lutSet 16 1 8 3 (
     Cbt.expRows true 16 4 1 1 (Cbt.cbtGap T.drift 1) 2 2 (Lut.rotate 4 (T.data.getD 0 [])) =
       [[[0], [0], [32], [0], [32], [0], [0], [0], [0], [0], [0], [0], [0], [0], [0], [0]]] :=
   ⟨_, rfl, by decide⟩
+
+open Lut in
+/-- **`prepare` on small-radix words: the multi-limb branch of `mod_switch_2n` in the proved chain.**  `fhe_uint_prepare` bootstraps bit `j` from an
+LWE in the radix of the INPUT word; when `1 ≤ base2k ≤ log2(2N) = m` the modulus switch collects `size = ⌈m/b⌉` limbs (`C14.index_error_low`).  With
+`H_c` the Horner values of the limbs read (sign applied: `Left`), `Φ_H = H_0 + Σ H_i s_i` the phase of those limbs under the binary LWE key:
+* `b ∤ m` (`d = b − m mod b`): if `Φ_H = −(i·step)·2^d + ε` and `(1 + hw(s))·2^{d−1} + |ε| < (step/2)·2^d`, the switched index `idx` satisfies
+  `(drift − idx) mod 2N = i·step + e`, `0 < e < step`;
+* `b ∣ m`: the switched values ARE the Horner values; if `Φ_H = −(i·step) + ε`, `|ε| < step/2`, the same conclusion.
+This is the hypothesis `hcell` of `cbt_rows_bit` (constant mode, `i = bit·α`), so `prepare_bits` / `cbt_gives_ggsw` cover words of every radix. -/
+theorem prepare_index_low (m b : Nat) (limbs : List (List Int)) (nl : Nat) (sk : List Int)
+    (hm : 1 ≤ m) (hb1 : 1 ≤ b) (hbm : b ≤ m) (hrows : ∀ row ∈ limbs, row.length = nl + 1)
+    (hsz : (m + b - 1) / b ≤ limbs.length)
+    (hx : ∀ row ∈ limbs, ∀ x ∈ row, -(2:Int) ^ (b - 1) ≤ x ∧ x ≤ 2 ^ (b - 1))
+    (hov : b * ((m + b - 1) / b) ≤ 62) (hbin : ∀ s ∈ sk, s = 0 ∨ s = 1)
+    (step N i : Nat) (hstep : step % 2 = 0) (hfit : i * step + step ≤ 2 * N) (ε : Int) :
+    let H : Nat → Int := fun c => hv b (fun l => (-1) * (limbs.getD l []).getD c 0) ((m + b - 1) / b - 1)
+    let Φ := H 0 + blkPhase (List.zip ((List.range nl).map fun c => H (c + 1)) sk)
+    let d := b - m % b
+    ∃ ys, modSwitch2n (2 ^ m) b limbs true = .ok ys ∧
+      (m % b ≠ 0 → Φ = -((i * step : Nat) : Int) * 2 ^ d + ε →
+        (((1 + sk.sum.natAbs) * 2 ^ (d - 1) : Nat) : Int) + |ε| < ((step / 2 : Nat) : Int) * 2 ^ d →
+        ∃ e : Nat, 0 < e ∧ e < step ∧
+          (((step / 2 : Nat) : Int) - (ys.getD 0 0 + blkPhase (List.zip ys.tail sk))) % (2 * (N : Int)) = ((i * step + e : Nat) : Int)) ∧
+      (m % b = 0 → Φ = -((i * step : Nat) : Int) + ε → |ε| < ((step / 2 : Nat) : Int) →
+        ∃ e : Nat, 0 < e ∧ e < step ∧
+          (((step / 2 : Nat) : Int) - (ys.getD 0 0 + blkPhase (List.zip ys.tail sk))) % (2 * (N : Int)) = ((i * step + e : Nat) : Int)) := by
+  intro H Φ d
+  obtain ⟨ys, hys, hlen, hdiv, hnd⟩ := C14.index_error_low m b limbs true nl sk hm hb1 hbm hrows hsz hx hov hbin
+  simp only [if_true] at hdiv hnd
+  refine ⟨ys, hys, ?_, ?_⟩
+  · intro hmb hΦ hsmall
+    obtain ⟨_, hid, hbd⟩ := hnd hmb
+    apply Noise.index_lands d step N i _ _ _ ε hstep hid hΦ _ hfit
+    have : |(2:ℤ) ^ (d - 1) - msRem d (H 0) + blkPhase (List.zip (((List.range nl).map fun c => H (c + 1)).map fun x => 2 ^ (d - 1) - msRem d x) sk)| ≤
+        (((1 + sk.sum.natAbs) * 2 ^ (d - 1) : ℕ) : ℤ) := by
+      rw [Int.abs_eq_natAbs]; exact_mod_cast hbd
+    linarith
+  · intro hmb hΦ hsmall
+    have hy := hdiv hmb
+    have h0 : ys.getD 0 0 = H 0 := by
+      rw [hy, List.getD_eq_getElem?_getD, List.getElem?_map, List.getElem?_range (Nat.succ_pos nl)]
+      rfl
+    have ht : ys.tail = (List.range nl).map fun c => H (c + 1) := by
+      rw [hy, List.range_succ_eq_map, List.map_cons, List.tail_cons, List.map_map]
+      rfl
+    rw [h0, ht]
+    apply Noise.index_lands 0 step N i _ Φ 0 ε hstep (by rw [pow_zero, mul_one, add_zero]) (by simpa using hΦ) (by simpa using hsmall) hfit
+
+/-- non-vacuity: `N = 16` (`m = 5`), radix `2^2`, three limbs (`d = 1`): the limbs `(1 | 1 | 0)` of a key-less sample (`H = 20`) switch to `−10`,
+inside the cell of `i = 1` for `step = 8` (`e = 6`) -/
+example : Lut.modSwitch2n 32 2 [[1], [1], [0]] true = .ok [-10] ∧ (((8 / 2 : Nat) : Int) - (-10)) % (2 * 16) = ((1 * 8 + 6 : Nat) : Int) :=
+  ⟨by rfl, by decide⟩
 
 /-- what a prepared bit holds, given what item `i` of the loop produces -/
 def preparedBit (bitOf : Nat → Bool) : Threads.Act → Bool
